@@ -182,6 +182,11 @@ fn conversions() {
     st.editor.timeline_zoom = kani::any();
     st.metadata.beatmap_id = kani::any();
     st.metadata.beatmap_set_id = kani::any();
+    // two breaks in arbitrary (also non-chronological) order: every decoder keeps file order
+    let (b0s, b0e, b1s, b1e): (f64, f64, f64, f64) = (kani::any(), kani::any(), kani::any(), kani::any());
+    st.hit_objects.events.breaks = Vec::with_capacity(2);
+    st.hit_objects.events.breaks.push(rosu_map::section::events::BreakPeriod { start_time: b0s, end_time: b0e });
+    st.hit_objects.events.breaks.push(rosu_map::section::events::BreakPeriod { start_time: b1s, end_time: b1e });
     let want_g = tp_hooks::state_parts(&st.hit_objects.timing_points).general.clone();
     let want_d = st.hit_objects.difficulty.difficulty.clone();
     let (ds, bd, gs, tz) = (st.editor.distance_spacing, st.editor.beat_divisor, st.editor.grid_size, st.editor.timeline_zoom);
@@ -216,7 +221,10 @@ fn conversions() {
     assert!(same_difficulty(&got_d, &want_d));
     assert!(map.distance_spacing.to_bits() == ds.to_bits() && map.beat_divisor == bd && map.grid_size == gs && map.timeline_zoom.to_bits() == tz.to_bits());
     assert!(map.beatmap_id == id && map.beatmap_set_id == sid);
-    assert!(map.hit_objects.is_empty() && map.breaks.is_empty() && map.control_points.timing_points.is_empty());
+    assert!(map.hit_objects.is_empty() && map.control_points.timing_points.is_empty());
+    assert!(map.breaks.len() == 2, "breaks lost in conversion");
+    assert!(map.breaks[0].start_time.to_bits() == b0s.to_bits() && map.breaks[0].end_time.to_bits() == b0e.to_bits(), "breaks reordered or altered in conversion");
+    assert!(map.breaks[1].start_time.to_bits() == b1s.to_bits() && map.breaks[1].end_time.to_bits() == b1e.to_bits(), "breaks reordered or altered in conversion");
     kani::cover!(true, "converted");
     core::mem::forget(map);
 }
@@ -233,5 +241,5 @@ oracle_proof!(c07_general_stack, 28, general_line("StackLeniency:$a", true));
 oracle_proof!(c07_editor_metadata_colors, 28, editor_metadata_colors_lines());
 // @verif property=C07 tier=quick timeout=1200 mem=16 bounds="[Events] break line '2,$a,$b' through Beatmap / HitObjects / Events"
 oracle_proof!(c07_events_break, 28, events_line());
-// @verif property=C07 tier=quick timeout=1200 mem=16 bounds="Beatmap::from(BeatmapState) with every numeric / flag field of General, Difficulty, Editor, Metadata and the version symbolic; empty object / control-point lists"
+// @verif property=C07 tier=quick timeout=1200 mem=16 bounds="Beatmap::from(BeatmapState) with every numeric / flag field of General, Difficulty, Editor, Metadata and the version symbolic; two arbitrary breaks (order kept); empty object / control-point lists"
 oracle_proof!(c07_conversions, 16, conversions());
